@@ -389,6 +389,24 @@ def execute(W, op, how):
         _, ts, p = op
         lst = src_list(W, how['src'])
         lst.parent = W.o(p)
+    elif k == 'LstSetChildren':
+        _, ts, vs = op
+        lst = src_list(W, how['src'])
+        val = materialise(W, vs, form)
+        if v == 'setattr':
+            setattr(lst, 'children', val)
+        else:
+            lst.children = val
+    elif k == 'LstSetLinks':
+        _, d, ts, vs = op
+        lst = src_list(W, how['src'])
+        val = materialise(W, vs, form)
+        if v == 'setattr':
+            setattr(lst, 'predecessors' if d else 'successors', val)
+        elif d:
+            lst.predecessors = val
+        else:
+            lst.successors = val
     elif k == 'WbsRemove':
         _, w, t = op
         W.wbss[w].remove(W.o(t))
@@ -405,14 +423,17 @@ def execute(W, op, how):
         raise ValueError('unknown op %r' % (k,))
 
 
+TS_INDEX = {'LstShift': 2, 'LstSetParent': 1, 'LstSetChildren': 1, 'LstSetLinks': 2}     # where the elements of the task list sit
+
+
 def normalise(W, op, how):
     """the elements of a task list source are read now: they are the `ts` of the model's op"""
-    if op[0] in ('LstShift', 'LstSetParent'):
+    if op[0] in TS_INDEX:
         if 'src' not in how:
-            how['src'] = find_source(W, op[2] if op[0] == 'LstShift' else op[1])
+            how['src'] = find_source(W, op[TS_INDEX[op[0]]])
         ts = W.nums(src_list(W, how['src']))
         op = list(op)
-        op[2 if op[0] == 'LstShift' else 1] = ts
+        op[TS_INDEX[op[0]]] = ts
     return op
 
 
@@ -562,6 +583,64 @@ class View:
             return False
         return not any(t in self.closure(v, d) for v in value)
 
+    # ---- the state after an ACCEPTED setter call (relations and owner only): the generator uses it to follow a
+    #      bulk assignment element by element; it is its own reading of the code, not the model's
+    def clone(self):
+        V = View.__new__(View)
+        V.h = [[r[0], r[1], list(r[2]), list(r[3]), list(r[4])] + list(r[5:]) for r in self.h]
+        V.wr = self.wr
+        V.n = self.n
+        return V
+
+    def after_children(self, t, value):
+        value = [v for v in dict.fromkeys(value) if v is not None]
+        V = self.clone()
+        for c in self.kids(t):
+            if c not in value:
+                V.h[c][1] = None
+                for y in self.sub(c):
+                    V.h[y][5] = None
+        for c in value:
+            q = V.h[c][1]
+            if q is not None and q != t and c in V.h[q][2]:
+                V.h[q][2].remove(c)
+            V.h[c][1] = t
+            if self.own(t) is not None:
+                for y in self.sub(c):
+                    V.h[y][5] = self.own(t)
+        V.h[t][2] = list(value)
+        return V
+
+    def after_links(self, d, t, value):
+        value = [v for v in dict.fromkeys(value) if v is not None]
+        V = self.clone()
+        f, b = (3, 4) if d else (4, 3)
+        for x in self.h[t][f]:
+            if t in V.h[x][b]:
+                V.h[x][b].remove(t)
+        V.h[t][f] = list(value)
+        for x in value:
+            if t not in V.h[x][b]:
+                V.h[x][b].append(t)
+        return V
+
+    def bulk_children(self, ts, value):
+        """index of the first element of ts that rejects `t.children = value` (None: all accept)"""
+        V = self
+        for k, t in enumerate(ts):
+            if not V.ok_children(t, value):
+                return k
+            V = V.after_children(t, value)
+        return None
+
+    def bulk_links(self, d, ts, value):
+        V = self
+        for k, t in enumerate(ts):
+            if not V.ok_links(d, t, value):
+                return k
+            V = V.after_links(d, t, value)
+        return None
+
 
 # =====================================================================================================
 # state-aware generation of one history
@@ -569,7 +648,8 @@ class View:
 ID_POOL = [0, 1, 2, 3, 4, 5, 7, 9, -1, 12]
 KINDS = [('SetParent', 12), ('SetChildren', 9), ('SetLinks', 8), ('ChAppend', 9), ('ChRemove', 3), ('ChInsert', 8),
          ('ChMove', 8), ('ChSort', 4), ('ChReorder', 4), ('ChRemoveAll', 2), ('LnAppend', 5), ('LnRemove', 3),
-         ('LnRemoveAll', 2), ('OpFloordiv', 9), ('OpShift', 7), ('LstShift', 5), ('LstSetParent', 2), ('WbsRemove', 2),
+         ('LnRemoveAll', 2), ('OpFloordiv', 9), ('OpShift', 7), ('LstShift', 5), ('LstSetParent', 2), ('LstSetChildren', 4), ('LstSetLinks', 4),
+         ('WbsRemove', 2),
          ('WbsRemoveAll', 2), ('SetEst', 1), ('SetPrio', 2), ('DeepLink', 5), ('SortNone', 3), ('Promote', 3), ('Diamond', 3), ('DeepUndo', 4)]
 P_ILLEGAL = 0.43
 P_STALE = 0.21      # share of list calls that ASK for a pooled facade; ~15 % find one
@@ -707,15 +787,15 @@ class Gen:
         users = V.users()
         need = (self.n_tasks - self.made_tasks) + (self.n_wbs - self.made_wbs)
         left = max(1, self.n_ops - self.step)
-        if len(users) < 2 or (need and rng.random() < min(1.0, 3.0 * need / left)):
-            if need:
-                return self.gen_create(V)
-        while self.queue:
+        while self.queue:                # first: an episode's prepared calls name objects by the numbers they will get
             item = self.queue.pop(0)
             if callable(item):           # an episode continues with a look at the state as it is now
                 item = item(V)
             if item is not None:
                 return item
+        if len(users) < 2 or (need and rng.random() < min(1.0, 3.0 * need / left)):
+            if need:
+                return self.gen_create(V)
         if self.deep_left > 0 and rng.random() < 0.75:       # an aimed episode in progress (g_DeepLink)
             self.deep_left -= 1
             r = self.g_DeepLink(V)
@@ -1114,6 +1194,73 @@ class Gen:
             return None
         return ['LstSetParent', ts, rng.choice(pool)], {'src': s}
 
+    def bulk_value(self, V, ts, first_rejecting, illegal, seeds):
+        """a value for a bulk assignment: grown from `seeds` and the other tasks so that every element accepts it;
+        then (illegal) an offender - mostly one the first element accepts and a later one rejects"""
+        rng = self.rng
+        users = V.users()
+        vs = []
+        cands = list(seeds) + users
+        for _ in range(rng.choice([0, 1, 1, 1, 2, 2, 2, 3, 3])):
+            add = [c for c in dict.fromkeys(cands) if c not in vs and first_rejecting(vs + [c]) is None]
+            pref = [c for c in add if c in seeds]
+            if add:
+                vs.append(rng.choice(pref if pref and rng.random() < 0.6 else add))
+        if illegal:
+            off = [(c, first_rejecting(vs + [c])) for c in users if c not in vs]
+            late = [c for c, k in off if k is not None and k >= 1]
+            anyb = [c for c, k in off if k is not None]
+            pool = late if late and rng.random() < 0.8 else anyb
+            if pool:
+                x = rng.choice(pool)
+                if rng.random() < 0.75:
+                    vs.append(x)
+                else:
+                    vs.insert(rng.randint(0, len(vs)), x)
+        return vs
+
+    def bulk_source(self, V):
+        """short lists are preferred: every element has to accept the value"""
+        for _ in range(4):
+            st = self.a_source(V)
+            if st is None:
+                return None
+            if 2 <= len(st[1]) <= 3 or self.rng.random() < 0.35:
+                return st
+        return st
+
+    def g_LstSetChildren(self, V):
+        """lst.children = value: every element in turn takes the SAME tasks (each later one takes them away from
+        the one before); members of the list itself inside the value are rejected by that member"""
+        rng = self.rng
+        st = self.bulk_source(V)
+        if st is None:
+            return None
+        s, ts = st
+        illegal = self.want_illegal()
+        seeds = [c for t in ts for c in V.kids(t)] + ([x for x in ts[1:]] if illegal else [])
+        vs = self.bulk_value(V, ts, lambda l: V.bulk_children(ts, l), illegal, seeds)
+        form = pick_form(rng, vs)
+        if form not in ('single', 'none'):
+            vs = decorate(rng, vs)
+        return ['LstSetChildren', ts, vs], {'src': s, 'form': form, 'v': rng.choice([None, None, None, 'setattr'])}
+
+    def g_LstSetLinks(self, V):
+        """lst.predecessors = value / lst.successors = value"""
+        rng = self.rng
+        st = self.bulk_source(V)
+        if st is None:
+            return None
+        s, ts = st
+        d = rng.random() < 0.5
+        illegal = self.want_illegal()
+        seeds = [c for t in ts for c in (V.preds(t) if d else V.succs(t))]
+        vs = self.bulk_value(V, ts, lambda l: V.bulk_links(d, ts, l), illegal, seeds)
+        form = pick_form(rng, vs)
+        if form not in ('single', 'none'):
+            vs = decorate(rng, vs)
+        return ['LstSetLinks', d, ts, vs], {'src': s, 'form': form, 'v': rng.choice([None, None, None, 'setattr'])}
+
     def g_DeepLink(self, V):
         """aims at `a task is re-parented below a task that one of its DEEP descendants (>= 2 levels down) is
         linked with` - the check of the links of the whole moved subtree against the new parent chain.
@@ -1421,7 +1568,7 @@ def run_pair(case):
     if 'src' in how:
         try:
             op = case['op']
-            if W.nums(src_list(W, how['src'])) != (op[2] if op[0] == 'LstShift' else op[1]):
+            if W.nums(src_list(W, how['src'])) != op[TS_INDEX[op[0]]]:
                 how.pop('src')
         except BaseException:  # noqa
             how.pop('src')
